@@ -17,6 +17,7 @@ import (
 
 	kafka "github.com/segmentio/kafka-go"
 	"github.com/segmentio/kafka-go/protocol"
+	"github.com/segmentio/kafka-go/sasl/plain"
 
 	"verifharness/fakekafka"
 	"verifharness/fakenet"
@@ -34,7 +35,7 @@ const (
 // API keys by name (the names used in scripts, journals and the TLA+ modules).
 var ApiKeys = map[string]int16{"Produce": 0, "Fetch": 1, "ListOffsets": 2, "Metadata": 3, "OffsetCommit": 8, "OffsetFetch": 9,
 	"FindCoordinator": 10, "JoinGroup": 11, "Heartbeat": 12, "LeaveGroup": 13, "SyncGroup": 14, "ApiVersions": 18,
-	"CreateTopics": 19, "DeleteTopics": 20, "InitProducerId": 22, "AddPartitionsToTxn": 24, "AddOffsetsToTxn": 25, "EndTxn": 26}
+	"SaslHandshake": 17, "SaslAuthenticate": 36, "CreateTopics": 19, "DeleteTopics": 20, "InitProducerId": 22, "AddPartitionsToTxn": 24, "AddOffsetsToTxn": 25, "EndTxn": 26}
 
 var apiNames = func() map[int16]string {
 	m := map[int16]string{}
@@ -45,7 +46,7 @@ var apiNames = func() map[int16]string {
 }()
 
 // highest version of each API the fake cluster (with this package's patches) can answer
-var servable = map[int16]int16{0: 8, 1: 11, 2: 5, 3: 8, 8: 7, 9: 5, 10: 2, 11: 2, 12: 2, 13: 2, 14: 2, 18: 0, 19: 4, 20: 3, 22: 1, 24: 2, 25: 2, 26: 2}
+var servable = map[int16]int16{0: 8, 1: 11, 2: 5, 3: 8, 8: 7, 9: 5, 10: 2, 11: 2, 12: 2, 13: 2, 14: 2, 17: 1, 18: 0, 36: 1, 19: 4, 20: 3, 22: 1, 24: 2, 25: 2, 26: 2}
 
 // ClientRanges reports what the library implements (protocol.ApiKey.MinVersion/MaxVersion).
 func ClientRanges() map[string][]int {
@@ -86,6 +87,7 @@ type run struct {
 	moveReq  int // number of metadata requests that had arrived when the cluster last changed
 	pidSeq   int64
 	dialHook func()
+	anyOp    bool       // a call was made: the pool exists
 	dmu      sync.Mutex // serialises dials with the tear-down of the scenario
 	down     bool
 }
@@ -195,6 +197,12 @@ func setup(sc *Script) *run {
 			r.populate(ts.Name, p)
 		}
 	}
+	for _, b := range sc.DownAtStart {
+		r.net.SetDown(fmt.Sprintf("b%d:9092", b), "refuse")
+	}
+	if sc.Sasl != nil {
+		r.cl.Sasl = &fakekafka.SaslConfig{Mechanisms: []string{"PLAIN"}, Users: map[string]string{sc.Sasl.User: sc.Sasl.Pass}}
+	}
 	r.cl.Intercept = r.intercept
 	var each func(op *Op)
 	each = func(op *Op) {
@@ -229,6 +237,9 @@ func setup(sc *Script) *run {
 	idle := time.Duration(sc.IdleMs) * time.Millisecond
 	r.tr = &kafka.Transport{Dial: r.dial, MetadataTTL: ttl, IdleTimeout: idle, ClientID: "vh-" + sc.ID, DialTimeout: 3 * time.Second,
 		MetadataTopics: sc.MetaTopics}
+	if sc.Sasl != nil {
+		r.tr.SASL = plain.Mechanism{Username: sc.Sasl.User, Password: sc.Sasl.Pass}
+	}
 	var addrs []string
 	for _, b := range sc.Boot {
 		addrs = append(addrs, fmt.Sprintf("b%d:9092", b))
@@ -266,7 +277,9 @@ func (c *cconn) Write(p []byte) (int, error) {
 				corr := int32(binary.BigEndian.Uint32(c.hdr[8:12]))
 				c.need = size - 8
 				c.hdr = c.hdr[:0]
-				c.r.rec.Emit(trace.Event{"ev": "cwrite", "conn": c.ID, "api": apiName(key), "v": int(ver), "corr": int(corr)})
+				if _, known := apiNames[key]; known { // (raw SASL tokens of a v0 handshake are not request frames)
+					c.r.rec.Emit(trace.Event{"ev": "cwrite", "conn": c.ID, "api": apiName(key), "v": int(ver), "corr": int(corr)})
+				}
 				if c.need < 0 {
 					c.need = 0
 				}
@@ -845,6 +858,8 @@ func (r *run) move(m *Move) {
 			r.txn = m.To
 		}
 		r.bconns[m.To], r.bconns[m.B] = r.bconns[m.B], nil
+	case "up":
+		r.net.SetDown(fmt.Sprintf("b%d:9092", m.B), "")
 	case "coord":
 		r.coord = m.To
 	case "txn":
@@ -865,7 +880,7 @@ func (r *run) move(m *Move) {
 // so the arrival of the second request after the change proves the first one's answer is in the cache.
 func (r *run) waitRefresh() {
 	r.cmu.Lock()
-	none := r.metaReq == 0
+	none := r.metaReq == 0 && !r.anyOp
 	r.cmu.Unlock()
 	if none {
 		return // no pool yet: nothing is cached, the first request will load the current layout
@@ -1015,7 +1030,13 @@ func (r *run) exec(ctx context.Context, op *Op) (res result) {
 		var x *kafka.MetadataResponse
 		x, err = c.Metadata(ctx, &kafka.MetadataRequest{Topics: names})
 		if err == nil && x != nil {
-			res.own = true
+			// the answer is about the topics that were asked for, in that order
+			res.own = names == nil || len(x.Topics) == len(names)
+			for i := range x.Topics {
+				if names != nil && i < len(names) && x.Topics[i].Name != names[i] {
+					res.own = false
+				}
+			}
 			res.ctrlr = x.Controller.ID
 			for _, b := range x.Brokers {
 				res.brokers = append(res.brokers, b.ID)
@@ -1185,6 +1206,9 @@ func (r *run) runOp(op *Op) {
 		ctx, c2 = context.WithTimeout(ctx, 6*time.Second)
 		defer c2()
 	}
+	r.cmu.Lock()
+	r.anyOp = true
+	r.cmu.Unlock()
 	ev := trace.Event(r.planOf(op))
 	ev["ev"] = "opbegin"
 	r.rec.Emit(ev)
@@ -1284,7 +1308,7 @@ func Run(sc *Script) []trace.Event {
 	}
 	r.rec.Emit(trace.Event{"ev": "cfg", "id": sc.ID, "kind": sc.Kind, "alive": ints(sc.Brokers), "boot": ints(sc.Boot), "topics": nz(topics),
 		"coord": sc.Coord, "txn": sc.Txn, "ctrlr": sc.Ctrlr, "vtab": r.vtabEvent(allBrokers(sc)), "crange": crange,
-		"ttlMs": sc.TTLMs, "idleMs": sc.IdleMs, "ops": nz(plans), "metaTopics": mt, "metaFiltered": sc.MetaTopics != nil})
+		"ttlMs": sc.TTLMs, "idleMs": sc.IdleMs, "ops": nz(plans), "metaTopics": mt, "metaFiltered": sc.MetaTopics != nil, "down": ints(sc.DownAtStart)})
 	var bg sync.WaitGroup
 	for i := range sc.Steps {
 		s := &sc.Steps[i]
